@@ -164,6 +164,8 @@ func lhErrClass(err error) string {
 		return ""
 	case errors.Is(err, commitmenttypes.ErrInvalidProof):
 		return "invalid-proof"
+	case errors.Is(err, ibcerrors.ErrInvalidHeight):
+		return "invalid-height"
 	case errors.Is(err, ibcerrors.ErrInvalidType):
 		return "invalid-type"
 	case errors.Is(err, host.ErrInvalidPath):
@@ -245,6 +247,9 @@ func (e *lhEnv) apply(in M) M {
 	before := e.digest()
 	res := Safe(func() any {
 		ctx := e.ctx()
+		if _, has := in["sh"]; has { // replays pin the chain's own height to the recorded one
+			ctx = ctx.WithBlockHeight(int64(N(in, "sh")))
+		}
 		id := S(in, "id")
 		h := clienttypes.NewHeight(N(in, "hr"), N(in, "hh"))
 		switch f {
@@ -420,7 +425,30 @@ func (e *lhEnv) genKeyValue(r *Rng) ([]byte, []byte) {
 func (e *lhEnv) genVerify(r *Rng) M {
 	key, value := e.genKeyValue(r)
 	proof, pnil := e.genProof(r)
-	in := M{"id": Pick(r, lhIDs), "hr": U(r.Num64()), "hh": U(r.Num64()), "dt": U(r.Num64()), "db": U(r.Num64()),
+	self := clienttypes.GetSelfHeight(e.ctx())
+	sr, sh := self.RevisionNumber, self.RevisionHeight
+	var hr, hh uint64
+	switch r.Intn(24) {
+	case 8, 9, 10, 11, 12:
+		hr, hh = sr, sh-1-uint64(r.Intn(3)) // below
+	case 13:
+		hr, hh = sr, 0
+	case 14, 15:
+		hr, hh = sr, sh+1+uint64(r.Intn(3)) // above
+	case 16:
+		hr, hh = sr, ^uint64(0)
+	case 17:
+		hr, hh = sr+1, Pick(r, []uint64{0, 1, sh}) // higher revision, lower height: above
+	case 18:
+		hr, hh = sr-1, Pick(r, []uint64{sh + 5, ^uint64(0), sh}) // lower revision, higher height: not above
+	case 19:
+		hr, hh = 0, 0
+	case 20:
+		hr, hh = r.Num64(), r.Num64()
+	default:
+		hr, hh = sr, sh // the current height
+	}
+	in := M{"id": Pick(r, lhIDs), "hr": U(hr), "hh": U(hh), "sr": U(sr), "sh": U(sh), "dt": U(r.Num64()), "db": U(r.Num64()),
 		"proof": proof, "proofNil": pnil, "pathKind": "merkle"}
 	pfx := Pick(r, []string{"ibc", "ibc", "ibc", "", "x", "upgrade"})
 	switch r.Intn(14) {
@@ -615,6 +643,11 @@ func lhMonitor(r *Rng, n int, report func(Violation)) {
 				path := Strs(in, "path")
 				sentinel := !Bool(in, "proofNil") && S(in, "proof") == "01"
 				shape := S(in, "pathKind") == "merkle" && len(path) == 2
+				// the proof height must not be above the chain's own height (revision first, then height)
+				hr, hh, sr, sh := N(in, "hr"), N(in, "hh"), N(in, "sr"), N(in, "sh")
+				if hr > sr || (hr == sr && hh > sh) {
+					shape = false
+				}
 				var want bool
 				if sentinel && shape {
 					key := B(M{"x": path[1]}, "x")
